@@ -751,3 +751,80 @@ def m_isabstract(ex, st, fr, args, kwargs):
     if isinstance(c, VClass) and hasattr(c, "sym"):
         return [(st, "ok", VT(tm.app("isabstract", BOOL, c.sym)))]
     raise Unsupported("isabstract(%r)" % (c,))
+
+
+# ---------------------------------------------------------------------- citations (pointwise): wiring
+from . import models_cit as MC   # noqa: E402
+
+
+def _int_of(self, ex, st, fr, v):
+    if isinstance(v, VT) and v.t.sort == STR:
+        n = T("str.to_int", (v.t,), INT)
+        return ex.raise_(st.assume(tm.lt(n, 0)), "ValueError") + [(st.assume(tm.le(0, n)), "ok", VT(n))]
+    return None
+
+
+def _list_of(self, ex, st, fr, v):
+    if isinstance(v, VObj) and v.kind == "CitList":
+        st2, o = MC.citlist_copy(st, v)
+        return [(st2, "ok", o)]
+    return None
+
+
+def _slice_assign(self, ex, st, target, value):
+    return MC.citlist_assign_all(ex, st, target, value)
+
+
+MocloModels.int_of = _int_of
+MocloModels.list_of = _list_of
+MocloModels.slice_assign = _slice_assign
+_prev_from_elem4 = MocloModels.from_elem
+
+
+def _from_elem4(self, ex, st, t):
+    if t.sort == INT and getattr(self, "elem_kind", None) == "Reference":
+        return MC.mk_reference(st, t)
+    return _prev_from_elem4(self, ex, st, t)
+
+
+MocloModels.from_elem = _from_elem4
+_prev_custom_iter = MocloModels.custom_iter
+
+
+def _custom_iter2(self, ex, st, fr, node, it, ordinal):
+    """`for i, ref in enumerate(citation_list)`: pointwise over the generic entry; the body may store into position i"""
+    if isinstance(it, VObj) and it.kind == "enumerate" and isinstance(st.get(it, "inner"), VObj) and st.get(st.get(it, "inner"), "rep") is not None \
+            and st.get(it, "inner").kind == "CitList":
+        cl = st.get(it, "inner")
+        k = tm.fresh("ci", INT)
+        rng_terms = (tm.le(0, k), tm.lt(k, st.get(cl, "length").t))
+        s0 = st.assume(*rng_terms).fork()
+        s0.ghost["cit_loop"] = (cl.oid, k)
+        res, normal = [], []
+        for (s1, _, _) in ex.assign(node.target, VTuple([VT(k), st.get(cl, "rep")]), s0, fr):
+            for (s2, tag, v) in ex.block(node.body, s1, fr):
+                if tag in ("ret", "raise"):
+                    res.append((s2, tag, v))
+                elif tag == "break":
+                    raise Unsupported("break in a pointwise loop")
+                else:
+                    normal.append(s2)
+        if not normal:
+            # every element leaves through an exit: the loop completes only when the list is empty
+            res.append((st.assume(tm.eq(st.get(cl, "length").t, 0)), "ok", None))
+            return res
+        if len(normal) > 1 and any(n_.heap != normal[0].heap for n_ in normal[1:]):
+            raise Unsupported("pointwise citation loop with several normal paths and different effects")
+        # the final state of the single normal path is the state after the loop: what it says about `rep` holds for every
+        # entry that exists (the index range of the generic entry is dropped: the list may be empty, and then `rep`
+        # describes nothing)
+        s2 = normal[0].fork()
+        s2.env = dict(st.env)
+        s2.ghost.pop("cit_loop", None)
+        s2.pc = tuple(c for c in s2.pc if c not in rng_terms)
+        res.append((s2, "ok", None))
+        return res
+    return _prev_custom_iter(self, ex, st, fr, node, it, ordinal)
+
+
+MocloModels.custom_iter = _custom_iter2
